@@ -37,6 +37,8 @@ type Obligation struct {
 	Note    string
 	Bounded bool // belongs to a bounded stand-in, never counted as proved
 
+	SpecDefs map[string]*SpecDef
+	Fuel     int
 	noQuant bool // emit without quantified axioms/hypotheses (relaxation)
 
 	// results
@@ -98,14 +100,92 @@ func tquoInstance(t *Term) *Term {
 	return Implies(Neq(y, Num(0)), body)
 }
 
+// defConsts: constants introduced as names for terms (c = t); such a hypothesis is only
+// relevant if c is mentioned elsewhere.
+var defConsts sync.Map
+
+func isDefHyp(h *Term) (string, bool) {
+	if h.K == TApp && h.Op == "=" && len(h.Args) == 2 && h.Args[0].K == TConst {
+		if _, ok := defConsts.Load(h.Args[0].Op); ok {
+			return h.Args[0].Op, true
+		}
+	}
+	return "", false
+}
+
+func constsOf(t *Term, out map[string]bool) {
+	switch t.K {
+	case TConst:
+		out[t.Op] = true
+	case TApp:
+		for _, a := range t.Args {
+			constsOf(a, out)
+		}
+	case TQuant:
+		constsOf(t.Args[0], out)
+	}
+}
+
+// relevantHyps drops definitional hypotheses whose constant is never used (cone of influence).
+func (o *Obligation) relevantHyps() []*Term {
+	defs := map[string]*Term{}
+	var keep []*Term
+	needed := map[string]bool{}
+	for _, h := range o.Hyps {
+		if c, ok := isDefHyp(h); ok {
+			if _, dup := defs[c]; !dup {
+				defs[c] = h
+				continue
+			}
+		}
+		constsOf(h, needed)
+	}
+	constsOf(o.Goal, needed)
+	for _, w := range o.Watch {
+		_ = w
+	}
+	// transitive closure
+	work := make([]string, 0, len(needed))
+	for c := range needed {
+		work = append(work, c)
+	}
+	used := map[string]bool{}
+	for len(work) > 0 {
+		c := work[len(work)-1]
+		work = work[:len(work)-1]
+		if d, ok := defs[c]; ok && !used[c] {
+			used[c] = true
+			m := map[string]bool{}
+			constsOf(d.Args[1], m)
+			for c2 := range m {
+				if !needed[c2] {
+					needed[c2] = true
+					work = append(work, c2)
+				}
+			}
+		}
+	}
+	for _, h := range o.Hyps {
+		if c, ok := isDefHyp(h); ok && defs[c] == h {
+			if used[c] {
+				keep = append(keep, h)
+			}
+			continue
+		}
+		keep = append(keep, h)
+	}
+	return keep
+}
+
 func (o *Obligation) SMT(withModel bool, forCVC5 bool) string {
 	var sb strings.Builder
+	hyps := o.relevantHyps()
 	if withModel || forCVC5 {
 		sb.WriteString("(set-option :produce-models true)\n")
 	}
 	sb.WriteString("(set-logic ALL)\n")
 	d := NewDecls()
-	all := append(append([]*Term{}, o.Axioms...), o.Hyps...)
+	all := append(append([]*Term{}, o.Axioms...), hyps...)
 	all = append(all, o.Goal)
 	for _, w := range o.Watch {
 		all = append(all, w.T)
@@ -117,6 +197,40 @@ func (o *Obligation) SMT(withModel bool, forCVC5 bool) string {
 		collectApps(t, func(a *Term) bool { return a.UFun && a.Op == "tquo" }, nil, &apps, seen)
 	}
 	var inst []*Term
+	// fuel-bounded unfolding of recursive spec functions at their ground applications
+	fuel := o.Fuel
+	if fuel == 0 {
+		fuel = 2
+	}
+	if len(o.SpecDefs) > 0 {
+		seenApp := map[string]bool{}
+		frontier := all
+		for round := 0; round < fuel; round++ {
+			var sapps []*Term
+			for _, t := range frontier {
+				collectApps(t, func(a *Term) bool { return a.UFun && o.SpecDefs[a.Op] != nil }, nil, &sapps, seenApp)
+			}
+			var next []*Term
+			for _, a := range sapps {
+				d := o.SpecDefs[a.Op]
+				m := map[string]*Term{}
+				for i, v := range d.Vars {
+					m[v.Op] = a.Args[i]
+				}
+				in := subst(d.Def, m)
+				inst = append(inst, in)
+				next = append(next, in)
+			}
+			frontier = next
+			if len(next) == 0 {
+				break
+			}
+		}
+		// tquo applications inside the unfolded instances
+		for _, t := range inst {
+			collectApps(t, func(a *Term) bool { return a.UFun && a.Op == "tquo" }, nil, &apps, seen)
+		}
+	}
 	for _, a := range apps {
 		inst = append(inst, tquoInstance(a))
 	}
@@ -147,7 +261,7 @@ func (o *Obligation) SMT(withModel bool, forCVC5 bool) string {
 	for _, a := range inst {
 		fmt.Fprintf(&sb, "(assert %s)\n", a)
 	}
-	for _, h := range o.Hyps {
+	for _, h := range hyps {
 		if o.noQuant && h.K == TQuant {
 			continue
 		}
